@@ -17,7 +17,6 @@ against the real ``get_impulse_response`` (A-FFT), index sets written out from t
     C07.support_shape          zero-phase: lo < 0 < hi; causal (not max_centered) gammatone: lo == 0
 """
 import math
-import time
 import warnings
 
 import numpy as np
@@ -301,8 +300,16 @@ def run(tier, seed):
         core.append(spec)
     # the very narrow Gabor filters whose temporal support is degenerate
     core.append({"bank": "gabor", "scale": {"name": "octave", "low_hz": 20.0}, "num_filts": 40, "rate": 16000, "low_hz": 20.0, "high_hz": None, "erb": False, "l2": False})
-    specs = core + [grid[i] for i in order]
-    for n_spec, spec in enumerate(specs):
+    def _specs():
+        for sp in core:
+            yield sp
+        for i in order:
+            yield grid[i]
+        # grid exhausted (thorough tier): seeded random configurations until the budget is used
+        for _ in range(0 if quick else 4000):
+            yield _random_spec(rng)
+
+    for n_spec, spec in enumerate(_specs()):
         if col.out_of_time() or col.too_many_failures():
             break
         if n_spec >= len(core) and n_spec % 5 == 4:
@@ -344,7 +351,7 @@ def run(tier, seed):
         bound=(
             f"BOUNDED ({tier}): zero-phase banks and gammatone order in {{3,4,6}} without L2 scaling; 4 scales x rates {{8k,16k,44.1k}} x num_filts "
             f"{'{2,6,11}' if quick else '{1,2,6,11,40}'} x 3 ranges x flags ({len(grid)} configurations, seeded class-interleaved order within the time budget, every 5th a seeded random "
-            f"configuration with order 3..8); all filters of a bank (n <= 11), else ends, middle and 2 random; buffer widths <= {wcap}"
+            f"configuration with order 3..8{'' if quick else ', then random configurations until the budget is used'}); all filters of a bank (n <= 11), else ends, middle and 2 random; buffer widths <= {wcap}"
         ),
         assumptions=ASSUMPTIONS,
     )
